@@ -313,6 +313,27 @@ def _matrices(ctx, case):
                     if not _close(i.to_matrix(), rq.rot(axis, th)):
                         ctx.fail({**case, "n": n}, f"{mod.__name__.split('.')[-1]}.{cname}({n},{d}).to_matrix() is not R_{axis}({n}pi/2^{d})")
                         return
+                    if n % 8 == 3:
+                        # a consumer of the published matrix: compares it (the package's own up-to-phase comparison) with the same
+                        # operator in another global phase, and works in place on what it was handed - the NEXT request for the
+                        # matrix, and the controlled rotation built from the same angle, still publish the operator
+                        from netqasm.util.quantum_gates import are_matrices_equal
+                        handed = i.to_matrix()
+                        are_matrices_equal(np.exp(0.7j) * rq.rot(axis, th), handed)
+                        ctx.count("published_matrices_used_by_a_consumer")
+                        # (neither what the comparison answers - it anchors on the first non-zero entry, which for angles like 131 pi
+                        # is rounding noise - nor what it does to the array it was handed is judged: only what is published afterwards)
+                        try:
+                            handed *= 1j
+                        except (TypeError, ValueError):
+                            pass
+                        again = getattr(mod, cname)(reg=reg, imm0=Immediate(n), imm1=Immediate(d)).to_matrix()
+                        ctl = [nv.ControlledRotXInstruction, nv.ControlledRotYInstruction][axis == "y"](
+                            reg0=reg, reg1=reg1, imm0=Immediate(n), imm1=Immediate(d)).to_matrix() if axis in "xy" else None
+                        if not _close(again, rq.rot(axis, th)) or (ctl is not None and not _close(ctl, rq.crot(axis, th))):
+                            ctx.fail({**case, "n": n}, f"after a consumer worked on the matrix published for rot_{axis}({n},{d}), the next request "
+                                                       f"for it (or for the controlled rotation by the same angle) publishes another operator")
+                            return
         else:
             for axis, cname in (("x", "ControlledRotXInstruction"), ("y", "ControlledRotYInstruction")):
                 i = getattr(nv, cname)(reg0=reg, reg1=reg1, imm0=Immediate(n), imm1=Immediate(d))
